@@ -14,7 +14,7 @@ VALUE_OVERLOADS = [
     "aten::floor_divide", "aten::remainder.Tensor", "prims::remainder", "aten::remainder.Scalar",
     "aten::fmod.Tensor", "aten::fmod.Scalar", "aten::add.Tensor", "aten::add.Scalar", "aten::sub.Tensor",
     "aten::subtract.Tensor", "aten::sub.Scalar", "aten::subtract.Scalar", "aten::div.Tensor_mode", "aten::div.Scalar_mode",
-    "aten::bitwise_left_shift.Tensor", "aten::bitwise_right_shift.Tensor",
+    "aten::bitwise_left_shift.Tensor", "aten::bitwise_right_shift.Tensor", "aten::roll (complex)",
     "aten::arange", "aten::arange.start", "aten::arange.start_step", "aten::linspace",
     "aten::full", "aten::zeros", "aten::ones", "aten::new_full", "aten::new_zeros", "aten::new_ones",
     "aten::full_like", "aten::zeros_like", "aten::ones_like",
@@ -387,6 +387,9 @@ def run_all(L, drv, run, stats):
         problems += check_creation(L, drv, run.rng, stats)
     for _ in range(run.size(60, 600)):
         problems += check_index_maps(L, drv, run.rng, stats)
+    problems += roll_complex_case(L, dict(shape=[2, 3], shifts=[1], dims=[-1]), stats)
+    for _ in range(run.size(20, 200)):
+        problems += check_roll_complex(L, run.rng, stats)
     # the dtype-promotion finding's own stream
     t = L._mods()["torch"]
     for dt in ("i32",):
@@ -403,7 +406,36 @@ def run_all(L, drv, run, stats):
     return problems
 
 
+def check_roll_complex(L, rng, stats):
+    """aten_roll_complex (real representation [..., 2]) vs torch.roll on the complex tensor — searched only."""
+    t = L._mods()["torch"]
+    shape = [rng.choice([1, 2, 3]) for _ in range(rng.randint(1, 3))]
+    r = len(shape)
+    k = rng.randint(1, min(r, 2))
+    dims = rng.sample(range(r), k)
+    dims = [d - r if rng.random() < 0.4 else d for d in dims]
+    shifts = [rng.randint(-shape[d], shape[d]) for d in dims]
+    c = dict(shape=shape, shifts=shifts, dims=dims)
+    return roll_complex_case(L, c, stats)
+
+
+def roll_complex_case(L, c, stats):
+    t = L._mods()["torch"]
+    n = int(np.prod(c["shape"])) * 2
+    z = np.arange(n, dtype=np.float32).reshape(c["shape"] + [2])
+    exp = t.view_as_real(t.roll(t.view_as_complex(t.tensor(z)), c["shifts"], c["dims"])).numpy()
+    stats["value_cases"] += 1
+    stats["fn:roll_complex"] += 1
+    r, term, err = _ort_vals(L, "aten_roll_complex", [z, list(c["shifts"]), list(c["dims"])], {})
+    if r is None:
+        return [("property", "roll_complex", c, f"torch returns {list(exp.shape)} ; traced graph fails: {err}")]
+    d = _cmp(r[0], exp)
+    return [("property", "roll_complex", c, d)] if d else []
+
+
 def replay(L, drv, name, case, stats):
+    if name == "roll_complex":
+        return roll_complex_case(L, case, stats)
     if name in INT_FUNCS:
         return check_int(L, drv, name, case, stats)
     return []
